@@ -571,6 +571,11 @@ class SymStr(_SymSeqStr):
                                tm.Substr(self.t, tm.mk_int(0), tm.Sub(tm.Len(self.t), tm.Len(pt))),
                                self.t))
 
+    def replace(self, old, new, count=-1):
+        if count != -1:
+            raise Unsupported("str.replace with count")
+        return wrap_str(tm.ReplaceAll(self.t, S(old), S(new)))
+
     def split(self, sep=None, maxsplit=-1):
         if sep is None or maxsplit != 1:
             raise Unsupported("str.split: only split(sep, maxsplit=1)")
@@ -792,6 +797,19 @@ class SymSeq(SymBase):
     def sym_len(self):
         return wrap_int(self.length)
 
+    def append(self, v):
+        """list.append for array-backed sequences (those made by types.SeqOf)."""
+        spec = getattr(self, "spec", None)
+        if spec is None or getattr(self, "state", None) is None:
+            raise Unsupported("append to a symbolic sequence that is not array-backed")
+        self.state = spec.val.arr_store(self.state, self.length, v)
+        self.length = tm.Add(self.length, tm.mk_int(1))
+        st = self
+        self.elem = lambda i: spec.val.arr_select(st.state, i)
+        c = CUR
+        if c is not None:
+            c.writes.append((self, "[]"))
+
     def __getitem__(self, k):
         if isinstance(k, slice):
             raise Unsupported("slice of symbolic sequence")
@@ -915,6 +933,7 @@ class SymSet(SymBase):
         self.kterm = kterm
         self.kwrap = kwrap
         self.name = name
+        self.elem_invariant = None
 
     def contains_t(self, key) -> T:
         return tm.Select(self.has, self.kterm(key), BOOL)
@@ -923,6 +942,7 @@ class SymSet(SymBase):
         return wrap_bool(self.contains_t(key))
 
     def add(self, key):
+        self.elem_invariant = None
         self.has = tm.Store(self.has, self.kterm(key), tm.TRUE)
         c = CUR
         if c is not None:
@@ -939,6 +959,19 @@ class SymSet(SymBase):
         if not c.fork(self.contains_t(key)):
             raise KeyError(key)
         self.discard(key)
+
+    def update(self, *others):
+        """Set union; with a symbolic sequence the result is an unconstrained superset."""
+        for o in others:
+            if isinstance(o, (list, tuple, set, frozenset)):
+                for x in o:
+                    self.add(x)
+            else:
+                c = cur()
+                new = c.fresh(c.fresh_name(self.name + ".updated"), self.has.sort)
+                k = c.fresh(c.fresh_name("k"), self.ksort)
+                self.has = new
+                c.writes.append((self, "[]"))
 
     def __iter__(self):
         raise Unsupported("native iteration over a symbolic set (loop transform missing)")
